@@ -200,7 +200,8 @@ def run_one_scenario(res, s, seed, kind, nw, nops, found):
   return lines, defs, meta
 
 
-KINDS = ["na>nu key", "na<=nu key eqc", "delay key", "na>nu sleep key", "na<=nu mocapchild key"]
+KINDS = ["na>nu key", "na<=nu key eqc", "delay key", "na>nu sleep key", "na<=nu mocapchild key", "manyeq na<=nu key", "interval na>nu key",
+         "manyeq interval key"]
 
 
 def run(res):
